@@ -595,6 +595,48 @@ func (p *Prog) staticCallSites(fn *ssa.Function) (sites []*ssa.Call, exact bool)
 	return
 }
 
+// callOrDeferSites: the number of plain or deferred static calls of fn in its package; exact=false when fn is also
+// referenced in another way (go, function value) or is exported.
+func (p *Prog) callOrDeferSites(fn *ssa.Function) (n int, exact bool) {
+	exact = true
+	if fn.Pkg == nil {
+		return 0, false
+	}
+	for _, f := range p.allFns {
+		root := f
+		for root.Parent() != nil {
+			root = root.Parent()
+		}
+		if root.Pkg != fn.Pkg {
+			continue
+		}
+		eachInstr(f, func(in ssa.Instruction) {
+			for _, op := range in.Operands(nil) {
+				if op == nil || *op != ssa.Value(fn) {
+					continue
+				}
+				switch c := in.(type) {
+				case *ssa.Call:
+					if c.Call.Value == ssa.Value(fn) {
+						n++
+						continue
+					}
+				case *ssa.Defer:
+					if c.Call.Value == ssa.Value(fn) {
+						n++
+						continue
+					}
+				}
+				exact = false
+			}
+		})
+	}
+	if fn.Object() != nil && fn.Object().Exported() {
+		exact = false
+	}
+	return
+}
+
 // guardedHereOrAtCallers: `in` executes only under a branch condition satisfying pred — in its own function, or,
 // when it sits in an unexported helper, at every call site of that helper (transitively up to depth).
 func (p *Prog) guardedHereOrAtCallers(in ssa.Instruction, pred func(Cond) bool, depth int) bool {
